@@ -437,7 +437,10 @@ class StructuredGrid(Grid):
         ):
             return False
 
-        return all(np.allclose(a, b) for a, b in zip(self.axes, other.axes))
+        return all(
+            len(a) == len(b) and np.allclose(a, b)
+            for a, b in zip(self.axes, other.axes)
+        )
 
     def __eq__(self, other):
         if not self.compatible_with(other):
